@@ -390,10 +390,12 @@ def _jacobian_fd(fn, q, p, dim, h=1e-6):
     return Jm
 
 
-def prob_symplectic_flows(mk, kind, dim, mkind, uf=False):
+def prob_symplectic_flows(mk, kind, dim, mkind, uf=False, **syskw):
     """Each component flow with a symbolic time is a symplectic map (uf=True: uninterpreted gradient with an uninterpreted
-    symmetric Hessian, i.e. any smooth target)."""
-    sysm, info = sl.make_system(S, M, mk, kind, dim, mkind=mkind, uf=uf)
+    symmetric Hessian, i.e. any smooth target).  For the constrained systems these are the unprojected component flows in
+    ambient coordinates (the h1 kick includes the Gram log-determinant force when the density is not w.r.t. the Hausdorff
+    measure): symplectic iff the force is a gradient field."""
+    sysm, info = sl.make_system(S, M, mk, kind, dim, mkind=mkind, uf=uf, **syskw)
     q, p = mk.arr("q", dim), mk.arr("p", dim)
     t = mk.real("t1")
     items = []
